@@ -1282,9 +1282,8 @@ def Q2d_nm_c_to_a_b(nms, coefs):
             if bc[k][i] is None:
                 bc[k][i] = 0
 
-    max_m_a = max(list(ac.keys()))
-    max_m_b = max(list(bc.keys()))
-    max_m = max(max_m_a, max_m_b)
+    # either family (or both, for purely rotationally symmetric input) may be empty
+    max_m = max([0, *ac.keys(), *bc.keys()])
     ac_ret = []
     bc_ret = []
     for i in range(1, max_m+1):
